@@ -6,12 +6,17 @@ import (
 	"context"
 	"fmt"
 	"io"
+	"os"
+	"path/filepath"
 	"testing"
 
 	"verif/harness/h"
 
+	"github.com/itchio/lake/pools/fspool"
 	"github.com/itchio/lake/tlc"
 	"github.com/itchio/wharf/pwr"
+	"github.com/itchio/wharf/pwr/bowl"
+	"github.com/itchio/wharf/pwr/patcher"
 	"github.com/itchio/wharf/wsync"
 	"pgregory.net/rapid"
 )
@@ -299,7 +304,17 @@ func genFile(t *rapid.T, i int) FileSpec {
 		f.Signed = h.Content{{Src: 1 + i, Off: 0, Len: size}}
 	}
 	w := h.Concat(f.Signed)
-	switch rapid.IntRange(0, 6).Draw(t, "mutation") {
+	switch rapid.IntRange(0, 8).Draw(t, "mutation") {
+	case 7: // a whole block missing: every later block equals the *next* signed block
+		if nb := nblocks(size); nb >= 2 {
+			k := rapid.IntRange(0, nb-2).Draw(t, "dropped-block")
+			w = h.Concat(w.Slice(0, k*B), w.Slice((k+1)*B, size))
+		}
+	case 8: // a block written twice: every later block equals the *previous* signed block
+		if nb := nblocks(size); nb >= 1 && size >= B {
+			k := rapid.IntRange(0, size/B-1).Draw(t, "doubled-block")
+			w = h.Concat(w.Slice(0, (k+1)*B), w.Slice(k*B, size))
+		}
 	case 0, 1: // equal
 	case 2: // flip in a set of blocks
 		n := rapid.IntRange(1, 3).Draw(t, "nflips")
@@ -349,6 +364,146 @@ var prop = h.Prop[Spec]{
 
 func TestProp(t *testing.T) { h.Run(t, prop) }
 
+// ---------------------------------------------------------------------------
+// the same pool driven the way its real caller drives it: a patch applied
+// through a pool bowl whose output pool is a ValidatingPool over the new
+// build's signature. The write slicing is whatever the patcher produces
+// (32KiB copy chunks, data ops of any size, bsdiff adds).
+
+type PatchSpec struct {
+	Pair     h.Pair  `json:"pair"`
+	Optimize bool    `json:"optimize,omitempty"`
+	Damage   []h.Dmg `json:"damage,omitempty"` // applied to the old build before patching (no safekeeper)
+}
+
+func checkViaPatcher(s PatchSpec) h.Result {
+	d := h.TempDir("c18p")
+	defer os.RemoveAll(d)
+	od, nd, dd, out := filepath.Join(d, "old"), filepath.Join(d, "new"), filepath.Join(d, "dmg"), filepath.Join(d, "out")
+	for _, x := range []struct {
+		t   h.Tree
+		dir string
+	}{{s.Pair.Old, od}, {s.Pair.New, nd}, {s.Pair.Old, dd}} {
+		if err := x.t.Write(x.dir); err != nil {
+			return h.Result{Skip: "cannot write tree"}
+		}
+	}
+	df, err := h.Diff(od, nd, h.Comp{}, nil)
+	if err != nil {
+		return h.Failf("diff failed: %v", err)
+	}
+	patch := df.Patch
+	if s.Optimize {
+		if patch, err = h.Optimize(df.Patch, od, nd, h.OptParams{Partitions: 1}); err != nil {
+			return h.Failf("optimize failed: %v", err)
+		}
+	}
+	si, err := h.ReadSig(df.Sig)
+	if err != nil {
+		return h.Failf("cannot read the signature of the new build: %v", err)
+	}
+	damaged := false
+	for _, dm := range s.Damage {
+		if e := s.Pair.Old.Get(dm.Path); e == nil || e.Kind != h.KFile {
+			continue
+		}
+		if err := h.ApplyDmg(dd, dm); err != nil {
+			return h.Result{Skip: "cannot damage"}
+		}
+		damaged = true
+	}
+	cl := []string{"driver:patcher+poolbowl"}
+	if damaged {
+		cl = append(cl, "old:damaged")
+	}
+	p, err := patcher.New(h.Source(patch), h.Quiet())
+	if err != nil {
+		return h.Failf("patcher.New: %v", err)
+	}
+	os.MkdirAll(out, 0o755)
+	tp := fspool.New(p.GetTargetContainer(), dd)
+	vp := &pwr.ValidatingPool{Pool: fspool.New(si.Container, out), Container: si.Container, Signature: si}
+	b, err := bowl.NewPoolBowl(bowl.PoolBowlParams{TargetContainer: p.GetTargetContainer(), SourceContainer: p.GetSourceContainer(), TargetPool: tp, OutputPool: vp})
+	if err != nil {
+		return h.Failf("NewPoolBowl: %v", err)
+	}
+	aerr := p.Resume(nil, tp, b)
+	if aerr == nil {
+		aerr = b.Commit()
+	}
+	b.Close()
+	want := s.Pair.New.Expect()
+	nt := false
+	for _, f := range si.Container.Files {
+		signed := want[f.Path].Data
+		got, rerr := os.ReadFile(filepath.Join(out, filepath.FromSlash(f.Path)))
+		if rerr != nil {
+			if aerr == nil && len(signed) > 0 {
+				return h.Result{Fail: fmt.Sprintf("application through the validating pool returned nil but %s was never written", f.Path), Classes: cl}
+			}
+			continue
+		}
+		// whatever reached the inner pool must be the signed content, or (after a
+		// failure / for a shorter write) a block-aligned prefix of it
+		if len(got) > len(signed) || !bytes.Equal(got, signed[:len(got)]) {
+			return h.Result{Fail: fmt.Sprintf("%s: %d bytes reached the underlying pool that are not a prefix of the signed content (%d bytes, first difference at %d); apply error: %v", f.Path, len(got), len(signed), firstDiffB(got, signed), aerr), Classes: cl}
+		}
+		if len(got) != len(signed) && len(got)%B != 0 {
+			return h.Result{Fail: fmt.Sprintf("%s: %d bytes reached the underlying pool, neither the signed length %d nor a block-aligned prefix; apply error: %v", f.Path, len(got), len(signed), aerr), Classes: cl}
+		}
+		if len(got) != len(signed) && aerr == nil && !damaged {
+			return h.Result{Fail: fmt.Sprintf("%s: undamaged old build, nil error, but only %d of %d bytes were written", f.Path, len(got), len(signed)), Classes: cl}
+		}
+		if len(signed) > B {
+			nt = true
+		}
+	}
+	if !damaged && aerr != nil {
+		return h.Result{Fail: fmt.Sprintf("a correct patch over an undamaged old build was rejected by the validating pool: %v", aerr), Classes: cl}
+	}
+	if aerr != nil {
+		cl = append(cl, "outcome:rejected")
+	} else {
+		cl = append(cl, "outcome:accepted")
+	}
+	return h.Result{Classes: cl, NonTrivial: nt}
+}
+
+func firstDiffB(a, b []byte) int {
+	n := len(a)
+	if len(b) < n {
+		n = len(b)
+	}
+	for i := 0; i < n; i++ {
+		if a[i] != b[i] {
+			return i
+		}
+	}
+	return n
+}
+
+var propPatcher = h.Prop[PatchSpec]{
+	ID: "C18", Name: "viapatcher",
+	Gen: func(t *rapid.T) PatchSpec {
+		s := PatchSpec{Pair: h.GenPair(t, h.GenOpts{KindChange: true})}
+		s.Optimize = rapid.IntRange(0, 2).Draw(t, "optimize") == 0
+		if rapid.Bool().Draw(t, "damage") {
+			s.Damage = h.GenDamages(t, s.Pair.Old, 2, false, false)
+			var keep []h.Dmg
+			for _, dm := range s.Damage {
+				if dm.Op == "flip" || dm.Op == "truncate" || dm.Op == "extend" {
+					keep = append(keep, dm)
+				}
+			}
+			s.Damage = keep
+		}
+		return s
+	},
+	Check: checkViaPatcher,
+}
+
+func TestViaPatcher(t *testing.T) { h.Run(t, propPatcher) }
+
 func TestReplay(t *testing.T) {
-	h.ReplayMain(t, map[string]h.Replayer{"validatingpool": h.ReplayerOf(prop)})
+	h.ReplayMain(t, map[string]h.Replayer{"validatingpool": h.ReplayerOf(prop), "viapatcher": h.ReplayerOf(propPatcher)})
 }
